@@ -436,6 +436,15 @@ def execute(run):
                                want_cls.__name__), **cond)
                 if type(new) is not type(rec['orig']) and want_cls is not type(rec['orig']):
                     ctx.probes['wrapper_to_family_type_change'] += 1
+                try:
+                    new_kind = zoo.kind_of(type(new).__module__ + '.' + type(new).__name__)
+                except ValueError:
+                    new_kind = None
+                if new_kind != kind:
+                    # not even a model of the same kind (somebody else's file came back):
+                    # nothing further can be compared, and it does not replace the copy
+                    ctx.event('hop', op['m'], op['via'], 'foreign', type(new).__name__)
+                    continue
             elif want_cls is not type(rec['orig']):
                 ctx.probes['wrapper_to_family_type_change'] += 1
             if rec['fitted']:
